@@ -82,7 +82,7 @@ basicTokensMap = {
     "TAB": 0xBA,
     "TO": 0xBB,
     "SUB": 0xBC,
-    "FNC": 0xBD,
+    "FN": 0xBD,
     "SPC": 0xBE,
     "USING": 0xBF,
     "USR": 0xC0,
@@ -106,7 +106,7 @@ basicTokensMap = {
     ">": 0xD3,
     "=": 0xD4,
     "<": 0xD5,
-    "DSKIN": 0xD6,
+    "DSKINI": 0xD6,
     "DSKO$": 0xD7,
     "KILL": 0xD8,
     "NAME": 0xD9,
@@ -130,9 +130,9 @@ basicTokensMap = {
     "SWAP": 0xEB,
     "SGN": 0xFF80,
     "INT": 0xFF81,
-    "APS": 0xFF82,
+    "ABS": 0xFF82,
     "FRE": 0xFF83,
-    "SQL": 0xFF84,
+    "SQR": 0xFF84,
     "LOG": 0xFF85,
     "EXP": 0xFF86,
     "COS": 0xFF87,
